@@ -327,7 +327,7 @@ def run(ctx):
     def viol(sig, what, wit):
         st.violation(sig, what, wit)
     r = ctx.rng('scn')
-    scns = [gen_scn(r) for _ in range({'quick': 60, 'thorough': 500}[ctx.tier])]
+    scns = [gen_scn(r) for _ in range({'quick': 60, 'thorough': 1000}[ctx.tier])]
     sysm = systematic(ctx.shard, ctx.nshards)
     if ctx.tier == 'quick':
         sysm = sysm[::8]
